@@ -34,6 +34,10 @@ variable {K V : Type}
   | .panic => .panic
   | .diverge => .diverge
 
+@[simp] theorem obind_ok {α β : Type} (a : α) (f : α → Outcome β) : obind (.ok a) f = f a := rfl
+@[simp] theorem obind_panic {α β : Type} (f : α → Outcome β) : obind .panic f = .panic := rfl
+@[simp] theorem obind_diverge {α β : Type} (f : α → Outcome β) : obind .diverge f = .diverge := rfl
+
 /-! ## binary heap (`heap/binary.go`) -/
 
 /-- `*generic.KeyValue[K, V]` -/
@@ -200,6 +204,12 @@ def Binomial.merge : List (Tree K V) → List (Tree K V) → List (Tree K V)
     else b :: Binomial.merge (a :: r1) r2
 termination_by h1 h2 => h1.length + h2.length
 
+/-- `next.sibling != nil && next.sibling.order == curr.order` (`rest` = the nodes after `next`) -/
+def Binomial.sibSameOrder (rest : List (Tree K V)) (curr : Tree K V) : Bool :=
+  match rest with
+  | [] => false
+  | s :: _ => s.deg == curr.deg
+
 /--
 The scan of `consolidate`.  `pre` = the nodes before `curr`, last first (`prev` is its head; `prev == nil`
 ⇔ `pre = []`); `rest` = the nodes after `curr` (`next` is its head).
@@ -208,7 +218,7 @@ def Binomial.consLoop (cmp : K → K → Int) : List (Tree K V) → Tree K V →
   | pre, curr, [] => pre.reverse ++ [curr]
   | pre, curr, next :: rest =>
     -- curr.order != next.order || (next.sibling != nil && next.sibling.order == curr.order)
-    if curr.deg != next.deg || (match rest with | [] => false | s :: _ => s.deg == curr.deg) then
+    if curr.deg != next.deg || Binomial.sibSameOrder rest curr then
       Binomial.consLoop cmp (curr :: pre) next rest
     else if cmp next.key curr.key > 0 then
       -- curr.sibling = next.sibling; link(next, curr)
